@@ -368,6 +368,29 @@ impl LsmTree {
 //@ >>
 //@ end
 }
+// opening (LsmTree::from_manifest, from the fresh reference counter to the construction of the tree): every file of the
+// version the store opens with holds a reference -- the precondition install_version starts from.  The cache line between
+// the two statements is dropped; the version mutex is read through (X23).
+impl ReferenceCounter {
+    #[verifier::external_body]
+    fn default() -> (r: ReferenceCounter) ensures forall|x: Setsum| r.count(x) == 0 { unimplemented!() }
+}
+//@ extract lsmtk/src/tree/mod.rs | impl LsmTree :: fn from_manifest
+//@ region `let mut references = ReferenceCounter::default();` ..< `let mut db = Self {`
+//@ region-sig <<
+fn open_refs(version: &VersionArc) -> (references: ReferenceCounter)
+//@ >>
+//@ region-tail <<
+    references
+//@ >>
+//@ rewrite X20 `let references = ReferenceCounter::default();` => `let mut references = ReferenceCounter::default();`
+//@ rewrite-re? X12 `(?m)^\s*let sst_cache = Arc::new\(LeastRecentlyUsedCache::new\(options\.sst_cache_bytes\)\);\n` => ``
+//@ rewrite-re? X23 `Self::explicit_ref\(&references, &version\.lock\(\)\.unwrap\(\)\);` => `LsmTree::explicit_ref(&mut references, version);`
+//@ post <<
+        forall|x: Setsum| version.files().contains(x) ==> references.count(x) >= 1,
+//@ >>
+//@ end
+
 proof fn lemma_take_contains(s: Seq<Setsum>, i: int)
     requires 0 <= i < s.len()
     ensures forall|x: Setsum| #![trigger s.take(i + 1).contains(x)] #![trigger s.take(i).contains(x)] s.take(i + 1).contains(x) <==> s.take(i).contains(x) || x == s[i],
@@ -573,7 +596,7 @@ fn process_one_record(v: &mut LsmVerifier, entry: &VPath, output_setsum: Setsum,
 //@ >>
 //@ end
 
-//@ min-verified 7
+//@ min-verified 8
 
 } // verus!
 fn main() {}
